@@ -73,7 +73,7 @@ func Ob_C12_SetTimeoutOrderBlock() {
 // C11/C13/C14 HandleExpiredShard, release branch: a completed shard without renewals is removed, its
 // provider's capacity, collateral and income are released exactly once, the order drops the shard (and
 // disappears with its last shard).
-func Ob_C11C13C14_HandleExpiredShard_Release() {
+func Ob_C07C11C13C14_HandleExpiredShard_Release() {
 	w := NewWorld()
 	sid := sym.Uint64("shardId")
 	s, found := w.Order.GetShard(w.Ctx, sid)
@@ -116,7 +116,7 @@ func Ob_C11C13C14_HandleExpiredShard_Release() {
 
 // C11 HandleExpiredShard, rotate branch: a shard with a queued renewal rotates to the next period and is
 // rescheduled at now + that period; it is not released.
-func Ob_C07C11C13_HandleExpiredShard_Rotate() {
+func Ob_C07C11C13C14_HandleExpiredShard_Rotate() {
 	w := NewWorld()
 	sym.SetBound("Shard.RenewInfos", 2)
 	sid := sym.Uint64("shardId")
